@@ -293,6 +293,29 @@ pub fn eval_ws(w: &LspWs, dir: &PathBuf) -> Result<(Vec<(String, String)>, u64),
             }
         }
     }
+    // an edit that keeps every byte offset but moves everything one line down ("// root\n" -> "//root\n\n"):
+    // the diagnostics the client holds afterwards are expressed in the new text's lines
+    if let Some(rest) = w.files[0].1.strip_prefix("// root\n") {
+        let edited = format!("//root\n\n{rest}");
+        let mut abs2 = abs.clone();
+        abs2[0].1 = edited.clone();
+        let m2 = Mapper::new(&abs2);
+        let ide2 = Ws::new(&abs2, &root_path);
+        let a2 = ide2.analysis();
+        s.did_change(&w.files[0].0, &edited, 2)?;
+        s.quiesce()?;
+        let latest = s.latest_publications();
+        for (fid, list) in &a2.diagnostics() {
+            let path = ide2.fs.path_of(*fid);
+            let uri = uri_of(&PathBuf::from(&path));
+            let want = sorted(list.iter().map(|d| json!({ "range": m2.range(&path, d.location.range), "message": d.message })).collect());
+            let got = match latest.get(&uri) {
+                Some(p) => sorted(p["diagnostics"].as_array().cloned().unwrap_or_default().iter().map(|d| json!({ "range": d["range"], "message": d["message"] })).collect()),
+                None => vec![json!("<no publication>")],
+            };
+            cmp(&mut problems, "diagnostics-after-relayout", format!("diagnostics of {path} after an edit that keeps byte offsets and shifts lines"), &json!(got), &json!(want));
+        }
+    }
     if std::env::var("TGV_TIMING").is_ok() {
         eprintln!("total {:?} compared {compared}", t0.elapsed());
     }
@@ -317,7 +340,7 @@ impl Engine for C09 {
         format!(
             "three-file workspaces: root a.td = prologue + include \"b.td\" + include of a file whose name has a blank and non-ASCII letters + every sequence of 1..={} of {} statements that use b's declarations; b.td = a longer, differently-lined prologue + all {} declarations or all but one; \
              x {{ASCII, 'é😀' before every statement and inside a string}} x {{LF, CRLF}} x {{complete, or ending in an unterminated statement whose last token touches the end of the text (both files)}}; the root is opened in the real server (framed JSON-RPC over an in-memory pipe) and, one message at a time, \
-             definition and references at the start and middle of every identifier of both files, documentSymbol, foldingRange, documentLink, inlayHint(whole file) per file and the published diagnostics are compared. \
+             definition and references at the start and middle of every identifier of both files, documentSymbol, foldingRange, documentLink, inlayHint(whole file) per file and the published diagnostics are compared; finally the root is edited so that every byte offset stays and every line number moves, and the diagnostics the client then holds are compared again. \
              non-trivial = every workspace (each has cross-file locations); distinct by construction.",
             tier.pick(2, 3),
             A_ITEMS.len(),
